@@ -86,8 +86,8 @@ def run_cfgs(rep, exe, cfgs, budget_s, label, par=1):
         for v in d['violations']:
             clause = v['clause']
             fp = clause if clause[:1] == 'C' and clause[3:4] == ':' else f"{rep.pid}:{c['scenario']}:{clause}"
-            if fp is not clause and c['scenario'] == 'c08' and 'prog' in c['params']:
-                fp += f":prog={c['params']['prog']}"   # a hang or crash is identified by the client program that produces it"
+            if c['scenario'] == 'c08' and 'prog' in c['params']:
+                fp += f":prog={c['params']['prog']}"   # a C08 violation is identified by the client program that produces it"
             pstr = ' '.join(f'--param {k}={x}' for k, x in c['params'].items())
             rep.violation(fp, f"{v['msg'][:600]} [scenario {c['scenario']} {c['params']} {c['model']} bound {c['bound']}, {v['deviations']} deviations, {v['count']} schedules]",
                           {'engine': 'vsched', 'exe': os.path.basename(exe), 'scenario': c['scenario'], 'params': c['params'], 'bound': c['bound'], 'bound_kind': c['model'], 'choices': v['choices'],
@@ -312,7 +312,8 @@ def c08_cfgs(tier):
         progs = c08_programs(3) + ['AsSBsS', 'AsBsS', 'AsAS', 'AsaXAsS', 'AsmSu', 'AssS', 'AsXAs', 'ABsSa', 'AsSsa', 'Asmau', 'AstS', 'AsCS', 'AsDS', 'AsCsS', 'AsDsS', 'CsAS', 'AswCS',
                                    'FsAS', 'FswAS', 'AsFS', 'AswFwS', 'FsS', 'AsRS', 'AsRsS', 'RsS', 'AsRwsS', 'AsRa',
                                    'EswgS', 'Eswwg', 'Esga', 'EswgsS', 'EswSAsS',
-                                   'GsS', 'Gsa', 'GsgS', 'GsAsS', 'GswAsS', 'Gs', 'HsS', 'Hsa', 'HsgS', 'HsAsS', 'Hs']
+                                   'GsS', 'Gsa', 'GsgS', 'GsAsS', 'GswAsS', 'Gs', 'HsS', 'Hsa', 'HsgS', 'HsAsS', 'Hs',
+                                   'JsS', 'Jsa', 'Js', 'JswS', 'Js2sS', 'TsS', 'AsTS', 'AsTsS', 'TsAsS', 'AswTa']
         c = [cfg('c08', 'D1', prog=p) for p in progs]
         c += [cfg('c08', 0, prog=p) for p in ('AsS', 'Asa', 'AsBS', 'AsAS', 'AsSsS', 'AsaAsS')]
         c += [cfg('c08', 'D2', prog=p) for p in ('AsS', 'Asa', 'AsBS', 'AsAS', 'AsCS', 'AsDS', 'AsXAsS', 'AsmSu', '2sa', '2sSA', 'FswAS', 'AswFwS', 'AsRsS')]
